@@ -1137,6 +1137,11 @@ func (c *contextWriter) RequiredGas(input []byte) uint64 {
 }
 
 func (c *contextWriter) Run(ctx context.Context, input []byte) ([]byte, error) {
+	if c.ctx == nil {
+		// only a plain CALL attaches the caller; refuse rather than attribute the write to nobody
+		return nil, errors.New("context writer can only be reached by a call")
+	}
+
 	if input == nil || len(input) < 128 {
 		return nil, nil
 	}
